@@ -63,7 +63,7 @@ def outcome(fn, *a, **k):
     return ("ok",), r
 
 
-def compare_orders(stmts, run_kw, sem_kw, source, emit, rng, tier, case, expect_code=None):
+def compare_orders(stmts, run_kw, sem_kw, source, emit, rng, tier, case, expect_code=None, mech_tag=""):
     from vf import eng
     text0 = ";\n".join(stmts) + ";"
     o_run0, r0 = outcome(eng.run, script=text0, return_only_persistent=False, **run_kw)
@@ -94,7 +94,7 @@ def compare_orders(stmts, run_kw, sem_kw, source, emit, rng, tier, case, expect_
             elif sem_digest(s) != sd0:
                 prob = ("semantic-structure-depends-on-order", "structures differ")
         if prob:
-            emit({"v": "viol", "b": bucket, "mech": f"{source.split(':')[0]}/{prob[0]}",
+            emit({"v": "viol", "b": bucket, "mech": f"{source.split(':')[0]}/{mech_tag}{prob[0]}",
                   "what": f"order {list(p)} of {text0[:300]!r}: {prob[1]}", "case": dict(case, perm=list(p))})
         else:
             emit({"v": "held", "b": bucket, "sample": {"source": source, "perm": list(p), "statements": len(stmts),
@@ -166,11 +166,13 @@ def gen_join_case(rng):
     """statements whose join aliases collide with each other and with dataset names produced elsewhere in the script"""
     n = rng.randint(2, 5)
     names = rng.sample(JNAMES, n)
+    collide = rng.random() < 0.5
     stmts = []
     avail = ["IN_1", "IN_2"]
     for j, nm in enumerate(names):
         x, y = rng.choice(avail), rng.choice(avail)
-        a1, a2 = rng.choice(["d1", "d2", "a"]), rng.choice(["d2", "b", "d1"])
+        # aliases shared between joins; in half of the cases they may also equal a dataset name of the script
+        a1, a2 = (rng.choice(["d1", "d2", "a"]), rng.choice(["d2", "b", "d1"])) if collide else (rng.choice(["a", "b"]), rng.choice(["b", "zz", "a"]))
         if a1 == a2:
             a2 = "zz"
         arrow = rng.choice(["<-", "<-", ":="])
@@ -197,7 +199,11 @@ def run_gen(case, emit, rng, tier):
     if case["kind"] == "joins":
         st = eng.structures(*[eng.mkds(f"IN_{i + 1}", JCOMPS) for i in range(2)])
         dfs = {f"IN_{i + 1}": eng.mkdf(["Id_1", "Me_1", "Me_2"], [(k, float(i * 10 + k), float(100 * (i + 1) + k)) for k in (1, 2, 3)]) for i in range(2)}
-        compare_orders(case["stmts"], {"data_structures": st, "datapoints": dfs}, {"data_structures": st}, "gen:joins", emit, rng, tier, {"gen": case})
+        import re
+        aliases = set(re.findall(r" as (\w+)", " ".join(case["stmts"])))
+        names = {s_.split(" ")[0] for s_ in case["stmts"]} | {"IN_1", "IN_2"}
+        tag = "join-alias-equals-a-dataset-name/" if aliases & names else "joins/"
+        compare_orders(case["stmts"], {"data_structures": st, "datapoints": dfs}, {"data_structures": st}, "gen:joins", emit, rng, tier, {"gen": case}, mech_tag=tag)
         return
     stmts, expect = build_gen(case)
     ni = case["ni"]
